@@ -117,7 +117,11 @@ class Norm:
     """The normalisations a (writer dialect, reader dialect) pair may apply."""
 
     def __init__(self, upper_names=False, folding=False, default_utc=True,
-                 omni=False):
+                 omni=False, tab_replace=0):
+        # tab_replace: the PDS3 encoder's documented option - every TAB it would
+        # write becomes that many blanks (visible in units; inside quoted strings the
+        # ODL-family readers fold white space anyway)
+        self.tab_replace = tab_replace
         self.upper_names = upper_names
         self.folding = folding
         self.default_utc = default_utc
@@ -131,8 +135,9 @@ class Norm:
         return s
 
 
-def norm_for(writer, reader):
+def norm_for(writer, reader, cfg=None):
     return Norm(
+        tab_replace=(cfg or {}).get("tab_replace", 4) if writer == "PDS3" else 0,
         upper_names=writer in ("ODL", "PDS3"),
         folding=reader in ("ODL", "PDS3", "ISISv", "default"),
         default_utc=reader in ("PVL", "PDS3", "ISIS", "ISISv", "default"),
@@ -160,7 +165,10 @@ def expect_value(v, n):
         y, mo, d, h, mi, s, us, tz = v["dt"]
         return canon_dt(y, mo, d, h, mi, s, us, tz, n.default_utc)
     if "q" in v:
-        return ("q", expect_value(v["q"][0], n), v["q"][1])
+        units = v["q"][1]
+        if n.tab_replace > 0:
+            units = units.replace("\t", " " * n.tab_replace)
+        return ("q", expect_value(v["q"][0], n), units)
     if "seq" in v:
         return ("seq", tuple(expect_value(i, n) for i in v["seq"]))
     if "set" in v:
